@@ -63,10 +63,10 @@ func runC17(p *core.Prog, r *core.Report) {
 		}
 		// allow-table: site key → precondition (each precondition is checked below as its own obligation)
 		allow := map[string]string{
-			"panic@pipeline/exec.computeOutputModule":                      "P-output-found: ModulesDownTo(output) returned no error, so the output module is in the list",
-			"panic@(*pb/sf/substreams/v1.Module).ModuleKind":               "P-kind-set: ValidateModules rejects a module without kind before calling ModuleKind",
-			"panic@pipeline/exec.computeStages":                            "P-input-set: ValidateModules (checkValidInputs) rejects an input whose oneof is absent",
-			"panic@manifest.(*ModuleGraph).mustModule":                     "unused helper",
+			"panic@pipeline/exec.computeOutputModule":        "P-output-found: ModulesDownTo(output) returned no error, so the output module is in the list",
+			"panic@(*pb/sf/substreams/v1.Module).ModuleKind": "P-kind-set: ValidateModules rejects a module without kind before calling ModuleKind",
+			"panic@pipeline/exec.computeStages":              "P-input-set: ValidateModules (checkValidInputs) rejects an input whose oneof is absent",
+			"panic@manifest.(*ModuleGraph).mustModule":       "unused helper",
 		}
 		seen := map[string]bool{}
 		for _, s := range sites {
